@@ -168,7 +168,12 @@ class FakeSock:
     def shutdown(self, how):
         self._chk()
         if self.reset or (self.broken and self.world.strict_peer):
-            raise OSError(errno.ENOTCONN, os.strerror(errno.ENOTCONN))
+            # a dead socket: shutdown() fails too — with ENOTCONN, or with the connection's own error again (ECONNRESET, EPIPE ...)
+            code = errno.ENOTCONN
+            last = (self.hards[-1] % HS_OFFSET) if self.hards else 0
+            if 0 < last < 1000 and len(self.hards) % 2 == 1:
+                code = last
+            raise OSError(code, os.strerror(code))
         self.shut = True
 
     def close(self):
@@ -416,8 +421,8 @@ def make_conn(kind, sends, recvs, hs=(), wl=None, tymth=None, world=None, bs=Non
 
 def _make_conn(kind, sends, recvs, hs, wl, tymth, world, bs=None, extra=None):
     kw = {} if bs is None else {"bs": bs}
-    if extra and kind.startswith("client"):     # parameters only the client classes take (caller-owned rxbs / txbs)
-        kw.update(extra)
+    if extra and (kind.startswith("client") != ("refreshable" in extra)):
+        kw.update(extra)      # rxbs / txbs: only the client classes take them; refreshable: only the remoter classes
     clienting, serving, TClientTls, TRemoterTls = classes()
     world = world or World()
     tls = is_tls(kind)
@@ -612,7 +617,9 @@ def run_conn(case, with_hards=False):
     #                                           the history then writes to / reads from the caller's objects, not obj.txbs / obj.rxbs
     own_tx = own_rx = None
     extra = None
-    if own is not None and kind.startswith("client"):
+    if own == "norefresh":          # remoter classes: constructed with refreshable=False
+        extra, own = dict(refreshable=False), None
+    elif own is not None and kind.startswith("client"):
         own_tx, own_rx = bytearray(own), bytearray()
         extra = dict(txbs=own_tx, rxbs=own_rx)
     mode = "raw" if use_wl is True else (tuple(use_wl) if isinstance(use_wl, (list, tuple)) else use_wl)
@@ -786,6 +793,10 @@ def run_server(case):
                 st = _status(server.closeAllIx)
             elif k == "wlopen":
                 st = _status(swl.reopen)
+            elif k == "norefresh":   # the application switches activity-refresh off on a remoter the server made
+                if _ca(op[1]) in server.ixes:
+                    server.ixes[_ca(op[1])].refreshable = False
+                st = "ok"
             elif k == "close":
                 if cm is not None and iop == nops - 1:
                     st = _status(lambda: cm.__exit__(None, None, None))
